@@ -15,6 +15,7 @@ import (
 func TestMain(m *testing.M) {
 	code := m.Run()
 	sharedWorker.stop()
+	mainWorker.stop()
 	os.Exit(code)
 }
 
